@@ -7,7 +7,7 @@ MANIFEST = dict(
     cat="proof",
     tech="Coq proof that an algorithm model of Simplex_tree on tries refines the abstract filtered complex of the operation history "
          "+ differential correspondence of the C++ (8 option sets) with the extracted model on the whole observable state after every operation",
-    text="40 Coq theorems (unbounded: all tries, simplices, values, histories; no axioms) about a function-by-function transcription of "
+    text="41 Coq theorems (unbounded: all tries, simplices, values, histories; no axioms) about a function-by-function transcription of "
          "Simplex_tree.h on prefix trees: for every history of insert_simplex, insert_simplex_and_subfaces (the double recursion with early exit), "
          "insert_batch_vertices, insert_graph, remove_maximal_simplex, prune_above_filtration, prune_above_dimension, clear, dimension(), "
          "num_simplices_by_dimension() that meets the documented preconditions, the tree is well formed and holds exactly the finite map the "
